@@ -228,6 +228,26 @@ def vertex_cache(ctx):
                         writes.append((i, fl[0], s['ln']))
                     elif fl[0] == '_vertex_cache':
                         resets.append(i)
+        # a function that COMPUTES the cache does so from the current geometry whatever the cache held before: its
+        # write is not conditioned on the old cache (otherwise a second gen_vertices() after a field edit is a no-op)
+        if resets and not writes and norm_(b.d.get('impl_self', '')).endswith('bbox::Universal2DBox'):
+            for i in sorted(set(resets)):
+                computed = False
+                for s_ in b.blocks[i]['st']:
+                    if s_['k'] == 'assign' and s_['lhs']['l'] == 1 and any(
+                            isinstance(p_, dict) and p_.get('n') == '_vertex_cache' for p_ in s_['lhs']['p']):
+                        eb = eb or ExprBuilder(b)
+                        v = eb._rvalue(s_['rv'], (), 0, (i, 0))
+                        computed = computed or any(x.kind == 'call' for x in v.walk())
+                if not computed:
+                    continue
+                stale_guard = [str(c) for c in path_conditions(b, i)
+                               if c.expr is not None and c.expr.has_field('_vertex_cache')]
+                n += 1
+                ctx.read(b)
+                ctx.check(not stale_guard, R, b, 'cache-computed-regardless-of-old-cache', '',
+                          '%s recomputes the cached polygon only when %s: after the geometry of a box was edited the '
+                          'stale polygon is kept' % (b.npath.rsplit('::', 1)[-1], stale_guard))
         for i, f, ln in writes:
             r = count_on_paths(b, i, b.returns(), resets)
             n += 1
@@ -239,7 +259,34 @@ def vertex_cache(ctx):
     ctx.floor(R, n, 5)
 
 
+def angle_rule(ctx):
+    """R19.7 normalize_angle can only map EVERY angle into one turn if it removes whole turns: a division based
+    reduction (floor / rem_euclid / % / trunc / round) or a loop. A fixed number of conditional +-2pi steps is piecewise
+    affine with finitely many pieces and leaves large angles outside the range."""
+    R = 'R19.7'
+    ctx.rule(R, 'normalize_angle removes whole turns (division-based reduction or a loop)')
+    b = ctx.anchor(R, 'utils::bbox::normalize_angle')
+    if b is None:
+        return
+    red = [c.name for c in b.find_calls() if c.name in ('floor', 'rem_euclid', 'trunc', 'round', 'ceil', 'div_euclid',
+                                                          'fract')]
+    rem = []
+    for i in sorted(b.live_blocks()):
+        for s_ in b.blocks[i]['st']:
+            if s_['k'] == 'assign' and s_['rv']['k'] == 'bin' and s_['rv']['op'] == 'Rem':
+                rem.append('%')
+    loops = bool(b.loops())
+    ctx.check(bool(red or rem or loops), R, b, 'whole-turn-reduction', str(red + rem + (['loop'] if loops else [])),
+              'normalize_angle contains neither a division-based reduction (floor, rem_euclid, %, trunc, round) nor a '
+              'loop: angles more than one turn outside [0, 2*pi) are not mapped into the range')
+    e = ExprBuilder(b).place(0, ())
+    ctx.check(e.has_place(root=('param', 1)), R, b, 'depends-on-the-angle', repr(e)[:100],
+              'the normalised angle does not depend on the argument')
+    ctx.floor(R, 2, 2)
+
+
 def run(ctx):
+    angle_rule(ctx)
     _ownership(ctx)
     _wiring(ctx)
     conversions(ctx)
